@@ -45,6 +45,9 @@ def main():
     ap.add_argument("--tier", default="quick")
     ap.add_argument("--keep", action="store_true")
     ap.add_argument("--clean", action="store_true")
+    ap.add_argument("--head", action="store_true",
+                    help="copy /verif as committed (git HEAD) plus the Lean build cache, not the working tree: "
+                         "use while builders are editing /verif")
     a = ap.parse_args()
     # one mutant run at a time: the scratch directories are shared
     import fcntl
@@ -64,10 +67,19 @@ def main():
             print("patch does not apply:\n" + r.stdout)
             cleanup()
             return 2
-    r = sh(f"rsync -a --exclude harness/target --exclude out --exclude .git {ROOT}/ {VM}/")
-    if r.returncode not in (0, 24):  # 24 = files vanished while copying (a concurrent lake build)
-        print(r.stdout)
-        return 2
+    if a.head:
+        os.makedirs(VM, exist_ok=True)
+        r = sh(f"git -C {ROOT} archive HEAD | tar -x -C {VM}")
+        if r.returncode != 0:
+            print(r.stdout)
+            return 2
+        # build cache only (lake re-checks every module against its trace, so stale entries are harmless)
+        sh(f"rsync -a {ROOT}/lean/.lake {VM}/lean/")
+    else:
+        r = sh(f"rsync -a --exclude harness/target --exclude out --exclude .git {ROOT}/ {VM}/")
+        if r.returncode not in (0, 24):  # 24 = files vanished while copying (a concurrent lake build)
+            print(r.stdout)
+            return 2
     cargo = os.path.join(VM, "harness", "Cargo.toml")
     txt = open(cargo).read().replace('"/repo/', f'"{WT}/')
     open(cargo, "w").write(txt)
